@@ -127,9 +127,16 @@ def semantic_mismatch(ast, parsed):
 
 
 # ---------------------------------------------------------------- spellings
-def respell(rng, s):
+def respell(rng, s, star=False):
     """equivalent spellings: spacing around delimiters/operators, '*' for juxtaposition, number shapes"""
     out = s
+    if star or rng.random() < 0.35:
+        # the multiplication written out: "2 x" -> "2*x", "3 (x + y)" -> "3 * (x + y)", "2 |x|" -> "2*|x|" (done on the canonical rendering,
+        # where a blank before a bar always precedes an OPENING bar)
+        star = rng.choice(["*", " * ", "* "])
+        out = re.sub(r"(?<![A-Za-z_0-9.])(\d+\.?\d*(?:[eE][+-]?\d+)?|\.\d+(?:[eE][+-]?\d+)?)\s+(?=[A-Za-z_(|])", lambda m: m.group(1) + star, out)
+        if rng.random() < 0.5:
+            out = re.sub(r"\)\s+(?=[A-Za-z_(])", lambda m: ")" + star, out)
     r = rng.random()
     if r < 0.3:
         out = re.sub(r"\s*([()|*/])\s*", r"\1", out)
@@ -172,24 +179,37 @@ def check(ctx):
         "twice. non-trivial = the string is accepted or raises the convexity error; distinct by string")
     proved = ctx.prove("props/C09.v", ["proofs/SyntaxFacts.v", "proofs/GrammarFacts.v", "proofs/ParseAllFacts.v", "proofs/SyntaxGenTermList.v", "proofs/SyntaxGenAbsTerm.v", "proofs/SyntaxGenAbsTermList.v", "proofs/SyntaxGenSerializer.v", "proofs/SyntaxGenGrammar.v", "proofs/SyntaxGenFold.v", "proofs/GrammarGenTokens.v", "proofs/GrammarGenTerms.v", "proofs/GrammarGenExpr.v", "proofs/GrammarGenFacts.v"])
     ctx.build(["model/ParseAll.vo"])
+    g = {"enumerated": 0, "random": 0, "enumerated_accepted": 0, "random_accepted": 0}
+    f = {"n": 0}
     # (a) grammar
-    g = gc.selftest(maxlen=3 if ctx.quick else 4, nrandom=800 if ctx.quick else 4000, seed=ctx.seed, verbose=False,
-                    nchar=200 if ctx.quick else 2000)
-    ctx.notes["grammar"] = {k: g[k] for k in g if k not in ("bad", "errors", "divzero")}
-    for s, r in g["bad"][:5]:
-        ctx.broke("correspondence:grammar", f"model/Grammar.v and pyparsing disagree on {s!r} (pyparsing: {str(r)[:300]})")
-    for e in g["errors"][:3]:
-        ctx.broke("correspondence:grammar", "cases file failed: " + str(e)[:500])
-    if g["copy_vs_real_disagreements"]:
-        ctx.machinery_failure("the instrumented copy of the grammar differs from the real grammar")
+    try:
+        for kind, msg in gc.IMPORT_PROBLEMS:
+            ctx.broke("correspondence:grammar_actions", "the harness's mirror of grammar.py's parse actions no longer agrees with grammar.py (" + kind + "): " + msg)
+        if gc._COPY is not None:
+            g = gc.selftest(maxlen=3 if ctx.quick else 4, nrandom=800 if ctx.quick else 4000, seed=ctx.seed, verbose=False,
+                            nchar=200 if ctx.quick else 2000)
+            ctx.notes["grammar"] = {k: g[k] for k in g if k not in ("bad", "errors", "divzero")}
+            for s, r in g["bad"][:5]:
+                ctx.broke("correspondence:grammar", f"model/Grammar.v and pyparsing disagree on {s!r} (pyparsing: {str(r)[:300]})")
+            for e in g["errors"][:3]:
+                ctx.broke("correspondence:grammar", "cases file failed: " + str(e)[:500])
+            if g["copy_vs_real_disagreements"] and not gc.IMPORT_PROBLEMS:
+                ctx.broke("correspondence:grammar_actions", "the harness's mirror of grammar.py's parse actions differs from the real grammar on generated strings")
+    except (SystemExit, Exception) as e:  # noqa: BLE001  a stage that cannot run any more is a broken correspondence; the search below still runs
+        ctx.broke("correspondence:grammar", "the grammar stage of the harness stopped: " + repr(e)[:1200])
     # (b) folding
-    f = sc.selftest(n=200 if ctx.quick else 3000, seed=ctx.seed + 9, verbose=False, keep=True)
-    ctx.notes["folding"] = {"n": f["n"], "kinds": f["kinds"], "skipped_signed_zero": f["skipped_signed_zero"],
-                            "string_cross_check": {k: v for k, v in f["string_cross_check"].items() if k != "differ_examples"}}
-    for i in f["mismatch_strict"][:5]:
-        ctx.broke("correspondence:folding", f"model/Syntax.v fold_expr and pacti's parse actions disagree on {sc.ast_to_string(f['cases'][i][1])!r}: python {f['cases'][i][2]}")
-    for e in f["coq_failures"][:3]:
-        ctx.broke("correspondence:folding", "cases file failed: " + e[-500:])
+    try:
+        f = sc.selftest(n=200 if ctx.quick else 3000, seed=ctx.seed + 9, verbose=False, keep=True)
+        ctx.notes["folding"] = {"n": f["n"], "kinds": f["kinds"], "skipped_signed_zero": f["skipped_signed_zero"],
+                                "string_cross_check": {k: v for k, v in f["string_cross_check"].items() if k != "differ_examples"}}
+        for i in f["mismatch_strict"][:5]:
+            ctx.broke("correspondence:folding", f"model/Syntax.v fold_expr and pacti's parse actions disagree on {sc.ast_to_string(f['cases'][i][1])!r}: python {f['cases'][i][2]}")
+        for st, r, r2 in f.get("star_differs", [])[:3]:
+            ctx.broke("correspondence:folding", f"pacti's parse actions give different results with and without the optional '*' token on the tree of {st!r}: {str(r)[:300]} / {str(r2)[:300]}")
+        for e in f["coq_failures"][:3]:
+            ctx.broke("correspondence:folding", "cases file failed: " + e[-500:])
+    except (SystemExit, Exception) as e:  # noqa: BLE001  a stage that cannot run any more is a broken correspondence; the search below still runs
+        ctx.broke("correspondence:folding", "the folding stage of the harness stopped: " + repr(e)[:1200])
     # (c) end to end on strings, several spellings, semantic oracle
     rng = random.Random(ctx.seed + 90)
     n = 150 if ctx.quick else 2500
@@ -218,7 +238,10 @@ def check(ctx):
             info.append((base, r1))
             continue
         results = []
-        for s in [base] + [respell(rng, base) for _ in range(2)]:
+        spellings = [base] + [respell(rng, base) for _ in range(2)]
+        if re.search(r"[\d)]\s+\|", base):
+            spellings.append(respell(rng, base, star=True))      # a multiplier in front of an absolute value, with the '*' written out
+        for s in spellings:
             r1, r2 = impl(s), impl(s)
             if r1 != r2:
                 ctx.violation("parse:not_idempotent", "parsing the same string twice gave different results", {"string": s})
